@@ -158,7 +158,7 @@ struct Fault {
 
 fn n_faults(len: usize, thorough: bool) -> usize {
     let trunc = if len <= 8192 { len + 1 } else { 512 };
-    let extra = if thorough { 2400 } else { 600 };
+    let extra = if thorough { 3600 } else { 900 };
     trunc + extra
 }
 
@@ -183,6 +183,29 @@ fn apply_fault(orig: &[u8], k: usize, rng: &mut Rng, thorough: bool) -> (Vec<u8>
             rng.usize(len)
         }
     };
+    if k2 < 300 * scale {
+        // a valid multi-byte UTF-8 sequence spliced into a run of printable ASCII: stored strings stay
+        // valid UTF-8 but their byte offsets stop being character boundaries
+        let printable = |x: u8| (0x20..0x7f).contains(&x);
+        let seq: &[u8] = match rng.below(4) {
+            0 | 1 => &[0xc3, 0xa9],
+            2 => &[0xe2, 0x82, 0xac],
+            _ => &[0xf0, 0x9f, 0x98, 0x80],
+        };
+        let starts: Vec<usize> = (0..len.saturating_sub(seq.len() - 1)).filter(|&p| b[p..p + seq.len()].iter().all(|x| printable(*x))).collect();
+        if starts.is_empty() {
+            return (b, Fault { kind: "utf8_splice", desc: "no printable run".into() });
+        }
+        let n = 1 + rng.usize(2);
+        let mut d = Vec::new();
+        for _ in 0..n {
+            let p = *rng.pick(&starts);
+            b[p..p + seq.len()].copy_from_slice(seq);
+            d.push(p.to_string());
+        }
+        return (b, Fault { kind: "utf8_splice", desc: format!("{}-byte character at {}", seq.len(), d.join(",")) });
+    }
+    let k2 = k2 - 300 * scale;
     if k2 < 250 * scale {
         if len == 0 {
             return (b, Fault { kind: "bitflip", desc: "empty".into() });
